@@ -135,7 +135,11 @@ func newGen(c *core.Ctx, o genOpts) *caseGen {
 			}
 			seq, plants = g.template(c, N)
 		}
-		g.templates = append(g.templates, tmpl{ID: fmt.Sprintf("t%d", k), Seq: string(seq)})
+		t := tmpl{ID: fmt.Sprintf("t%d", k), Seq: string(seq)}
+		if c.Rng.Intn(6) == 0 { // nested PCR
+			t.Ann = earlierPCR(c.Rng)
+		}
+		g.templates = append(g.templates, t)
 		g.plants = append(g.plants, plants)
 	}
 	return g
